@@ -23,6 +23,10 @@ import (
 // correlation in every row of S.
 func c15Causal(cs *vrt.Case, r *vrt.Rng) {
 	if r.Bool() {
+		if r.Intn(3) == 0 {
+			c15DeadEntropy(cs, r)
+			return
+		}
 		c15CausalCheckRows(cs, r)
 		return
 	}
@@ -344,4 +348,130 @@ func solveSubset(vs []ot.Label, target ot.Label) []int {
 		}
 	}
 	return out
+}
+
+// countingReader records the offset at which every Read call starts.
+type countingReader struct {
+	r      *vrt.Rng
+	off    int
+	starts []int
+}
+
+func (c *countingReader) Read(p []byte) (int, error) {
+	c.starts = append(c.starts, c.off)
+	c.off += len(p)
+	return c.r.Read(p)
+}
+
+// c15DeadEntropy: the receiver's entropy source dies at the start of one of
+// its last draws (the challenge seed is among them), and a tamperer who bets
+// that the challenge seed is then the all-zero label flips one Delta-selected
+// column in a set of rows whose coefficients under THAT seed XOR to zero. A
+// receiver that cannot draw a fresh challenge has to give up; if it carries on
+// with a predictable one, the sender accepts the altered matrix.
+func c15DeadEntropy(cs *vrt.Case, r *vrt.Rng) {
+	n := vrt.Pick(r, []int{200, 513, 600})
+	b := choiceVec(r, n, 4)
+	delta := ot.Label{D0: r.U64(), D1: r.U64()}
+	col := r.Intn(128)
+	delta.SetBit(col, 1)
+	pay := (n + 511) / 512
+	seedS, seedR := r.U64(), r.U64()
+	// rows whose coefficients under the zero seed XOR to zero
+	st := ctrStream(ot.Label{})
+	chi := make([]ot.Label, n)
+	for i := range chi {
+		var buf [16]byte
+		st.XORKeyStream(buf[:], buf[:])
+		chi[i].SetBytes(buf[:])
+	}
+	rows := zeroSubset(chi)
+	flip := map[int]bool{}
+	for _, j := range rows {
+		flip[j] = true
+	}
+	ctorDraws := 0 // draws the receiver's constructor makes (the base OTs run there, with both parties in step)
+	run := func(dieAt int, tamper bool) (sent, recv []ot.Label, serr, rerr error, pan *vrt.PanicInfo, starts []int, hits int) {
+		bo1, bo2 := otx.NewIdealPair()
+		io1, io2 := otx.NewBufIOPair()
+		tio := &otx.TamperIO{IO: io1}
+		tio.DataHook = func(k int, chunk []byte) {
+			if !tamper || k >= pay {
+				return
+			}
+			br := len(chunk) / 128
+			base := k * 512
+			for j := range flip {
+				if j >= base && j < base+br*8 && j < base+512 {
+					rw := j - base
+					chunk[col*br+rw/8] ^= 1 << uint(rw%8)
+					hits++
+				}
+			}
+		}
+		recv = make([]ot.Label, n)
+		cr := &countingReader{r: vrt.NewRng(seedR)}
+		var src interface {
+			Read([]byte) (int, error)
+		} = cr
+		if dieAt >= 0 {
+			src = &failingReader{r: vrt.NewRng(seedR), left: dieAt}
+		}
+		d := &duplex{A: tio, B: io2, doneA: io1.Close, doneB: io2.Close, finish: func() {}}
+		ra, rb := runPair(d, func() error {
+			s, err := ot.NewIKNPSender(bo1, tio, vrt.NewRng(seedS), &delta)
+			if err != nil {
+				return err
+			}
+			sent, err = s.Send(n, true)
+			return err
+		}, func() error {
+			rc, err := ot.NewIKNPReceiver(bo2, io2, src)
+			if err != nil {
+				return err
+			}
+			ctorDraws = len(cr.starts)
+			return rc.Receive(b, recv, true)
+		})
+		return sent, recv, ra.err, rb.err, firstPanic(ra, rb), cr.starts, hits
+	}
+	desc := map[string]any{"kind": "tamperer betting on an all-zero challenge seed while the receiver's entropy source dies", "n": n, "column": col, "rows": len(rows)}
+	cs.SetSample(desc)
+	_, _, serr, rerr, pan, starts, _ := run(-1, false)
+	firstReceiveDraw := ctorDraws
+	cs.Evals++
+	if pan != nil {
+		c15Panic(cs, pan, desc)
+		return
+	}
+	if serr != nil || rerr != nil {
+		cs.Violate("C15|honest-abort", fmt.Sprintf("honest malicious-mode run aborted: sender=%v receiver=%v", serr, rerr), map[string]any{"case": desc})
+		return
+	}
+	if len(starts) == 0 || len(rows) == 0 {
+		cs.Inconc("no entropy draws or no zero-sum row set")
+		return
+	}
+	// the source dies at the start of each of the receiver's last draws in turn
+	for k := len(starts) - 1; k >= firstReceiveDraw && k >= len(starts)-4; k-- {
+		sent, recv, serr, rerr, pan, _, hits := run(starts[k], true)
+		cs.Evals++
+		cs.Count("dead_entropy_zero_seed_trials", 1)
+		if pan != nil {
+			c15Panic(cs, pan, desc)
+			return
+		}
+		if serr != nil || len(sent) != n {
+			cs.Count("aborted", 1)
+			continue
+		}
+		o := c15Out{sent: sent, recv: recv}
+		if ok, i := correlationHolds(&o, b, delta); !ok {
+			cs.Violate("C15|silent-inconsistent|dead-entropy-zero-seed", fmt.Sprintf("the receiver's entropy source died at byte %d (start of its draw %d of %d), the receiver went on (its error: %v), and the sender accepted a matrix with column %d flipped in %d rows chosen for an all-zero challenge seed (%d flips landed); position %d breaks the correlation", starts[k], k+1, len(starts), rerr, col, len(rows), hits, i),
+				map[string]any{"case": desc, "delta": delta.String()})
+			return
+		}
+		cs.Count("silent_consistent", 1)
+	}
+	cs.Key("dead-entropy", fmt.Sprint(n, col, len(rows), len(starts)))
 }
